@@ -33,7 +33,7 @@ def main():
         pid = m.get("property")
         conf = (m.get("confirmed_by_verifier") or {}).get("confirmed")
         r = (m.get("check_results") or {}).get(pid)
-        rows.append((os.path.basename(d), pid, ", ".join(os.path.basename(f) for f in m.get("files", [])), m.get("kind", ""), m.get("needs", ""), conf, how(r), r))
+        rows.append((os.path.basename(d), pid, ", ".join(os.path.basename(f) for f in m.get("files", [])), m.get("kind", ""), m.get("needs", ""), conf, how(r), r, m.get("first_run", "")))
     out = ["# Seeded changes", "",
            "Each directory holds `patch.diff` (applies to /repo HEAD with `git -C /repo apply`), `demo.py` (exit 0 without the change,",
            "non-zero with it; run with PYTHONPATH=/repo), and `meta.json` (what it is, what it needs to manifest, the sub-agent's test-suite",
@@ -42,9 +42,9 @@ def main():
            "suite at 299 passed / 32 environment failures. None is committed to /repo. `tools/seeded.py run <dir>` re-runs one.", "",
            f"{sum(1 for r in rows if r[7] and r[7]['exit'] == 1)} of {len(rows)} are reported by the target property's quick check; "
            f"{sum(1 for r in rows if r[7] and r[7]['exit'] == 1 and r[7].get('replay_kind') == 'failing-input')} with a concrete failing input.", "",
-           "| change | file | what it does | needs | demo confirmed | check result |", "|---|---|---|---|---|---|"]
-    for name, pid, files, kind, needs, conf, h, r in rows:
-        out.append(f"| {name} | {files} | {kind[:260].replace('|', '/')} | {needs[:200].replace('|', '/')} | {conf} | {h.replace('|', '/')} |")
+           "| change | file | what it does | needs | demo confirmed | check result (current machinery) | first run (rounds 3-4) |", "|---|---|---|---|---|---|---|"]
+    for name, pid, files, kind, needs, conf, h, r, fr in rows:
+        out.append(f"| {name} | {files} | {kind[:260].replace('|', '/')} | {needs[:200].replace('|', '/')} | {conf} | {h.replace('|', '/')} | {fr} |")
     open(os.path.join(ROOT, "seeded", "SUMMARY.md"), "w").write("\n".join(out) + "\n")
     print("\n".join(f"{r[0]}: {r[6][:150]}" for r in rows))
 
